@@ -94,7 +94,7 @@ Proof. unfold start_ok, off_byte. destruct present; intros H; [|lia]. apply Nat.
 
 Lemma enc_inventory_bytes s : wf_inv s = true -> bytes_ok (enc_inventory s) = true.
 Proof.
-  unfold wf_inv. intros H.
+  unfold wf_inv, wf_inv_gen. intros H.
   apply andb_prop in H as [H Hst]. apply andb_prop in H as [H Hmr]. apply andb_prop in H as [H Hpr].
   apply andb_prop in H as [H Hbd]. apply andb_prop in H as [H Hch]. apply andb_prop in H as [Hint _].
   cbv zeta in Hst. apply andb_prop in Hst as [Hst S4]. apply andb_prop in Hst as [Hst S3].
@@ -133,3 +133,12 @@ Proof.
       [left; reflexivity | vm_compute; lia | vm_compute; lia].
   - eapply cov_rec; [reflexivity | vm_compute; lia |]. vm_compute. right. split; [lia|]. left. lia.
 Qed.
+
+(* F15c: over the full domain of the storage definition the inverse property is false of
+   the code: an OEM record of type 0xC0 whose payload is only a manufacturer id, as the
+   last record of the image, is rejected ('data too short') *)
+Definition f15c_witness : sinv := mkSInv [] None None None [mkSRec 2 [1]; mkSRec 0xc0 [0x11; 0x22; 0x33]].
+Lemma parse_enc_full_refuted :
+  exists s, wf_inv_full s = true /\ bytes_ok (enc_inventory s) = true /\
+            parse_inventory (enc_inventory s) = Err DecodingError.
+Proof. exists f15c_witness. vm_compute. auto. Qed.
